@@ -116,7 +116,8 @@ pub fn isotopic_convolution<'a, C: Into<ChemicalComposition<'a>>>(
         })
         .collect();
 
-    let peaks = TheoreticalIsotopicPattern::from(peaks);
+    let origin = peaks.first().map(|p| p.mz).unwrap_or(0.0);
+    let peaks = TheoreticalIsotopicPattern::new(peaks, origin);
     peaks.normalize().ignore_below(abundance_threshold).peaks
 }
 
